@@ -5,19 +5,20 @@
 # through VERIF_REPO, and the worktree removed afterwards (with its build output).
 set -u
 TARGET=$1; TIER=$2; shift 2
+case "$TARGET" in /*) ;; *) TARGET=$PWD/$TARGET ;; esac
 if [ -d "$TARGET" ]; then
   if [ -f "$TARGET/patch.diff" ]; then PATCH=$TARGET/patch.diff; else PATCH=$TARGET/MUTANT/patch.diff; fi
 else
   PATCH=$TARGET
 fi
 NAME=$(echo "$TARGET" | tr '/' '_')
+export VERIF_OUT=/var/tmp/verif-mutant-out/$NAME.$$
 WT=/var/tmp/verif-mutant-wt/$NAME.$$
 mkdir -p /var/tmp/verif-mutant-wt
 git -C /repo worktree add -q --detach "$WT" HEAD || exit 3
 trap 'git -C /repo worktree remove --force "$WT" 2>/dev/null; rm -rf "$WT" "$VERIF_OUT"' EXIT
 git -C "$WT" apply "$PATCH" || { echo "patch does not apply to /repo HEAD"; exit 3; }
 export VERIF_REPO=$WT
-export VERIF_OUT=/var/tmp/verif-mutant-out/$NAME.$$
 mkdir -p "$VERIF_OUT"
 cd /verif
 for p in "$@"; do
